@@ -216,11 +216,8 @@ func ruleAddressLists(r *Run, rule string) {
 
 // dataCachePushers / dataCacheProbes: methods of the variant that directly call
 // PushLine / Get on a cache that is also written by stores (a data cache).
-func dataCacheMethods(v *variant, method string) map[*types.Func]bool {
-	byVar := map[*types.Var]*cacheInfo{}
-	for _, c := range cachesOf(v) {
-		byVar[c.field] = c
-	}
+func dataCacheMethods(w *World, v *variant, method string) map[*types.Func]bool {
+	_, byVar := resolvedCaches(w, v)
 	out := map[*types.Func]bool{}
 	for _, f := range v.pkg.Syntax {
 		for _, d := range f.Decls {
@@ -292,8 +289,8 @@ func ruleLoadSampling(r *Run, rule5, rule6 string) {
 			continue
 		}
 		info := v.info
-		pushers := dataCacheMethods(v, "PushLine")
-		probes := dataCacheMethods(v, "Get")
+		pushers := dataCacheMethods(w, v, "PushLine")
+		probes := dataCacheMethods(w, v, "Get")
 		readers := imageReaders(v)
 		for _, f := range v.pkg.Syntax {
 			for _, d := range f.Decls {
